@@ -101,6 +101,7 @@ int main(int argc, char** argv)
         for (auto& c : ans) if (c == '\n') c = ' ';
         fputs(ans.c_str(), out);
         fputc('\n', out);
+        fflush(out);      // a crash in a later request must not lose this answer
     }
     fflush(out);
     return 0;
